@@ -101,6 +101,7 @@ type Result struct {
 	Inputs        int            `json:"max_inputs"`
 	Decisions     int            `json:"decisions"`
 	InitNotes     []string       `json:"init_notes,omitempty"`
+	Truncated     string         `json:"truncated,omitempty"`
 	Witnesses     [][]InputVal   `json:"witnesses,omitempty"`
 	ReachTags     []string       `json:"reach_tags,omitempty"` // tags present in the harness source
 	ObservedTrace []string       `json:"observed,omitempty"` // concrete mode
@@ -112,9 +113,9 @@ type decision struct {
 	n       int // number of alternatives; 0 = open-ended (concretize: 2)
 	payload uint64
 	forced  bool
-	pushed  bool
-	flip    bool // re-run: resume this decision from alternative choice+1
-	events  int  // in.events at the time of the push
+	pushed  bool   // the chosen alternative is on the solver stack
+	feas    []bool // feasibility of each alternative under the path condition at first visit (nil for forced)
+	events  int    // in.events at the time of the push
 }
 
 type inputRec struct {
@@ -181,6 +182,7 @@ type Interp struct {
 	curFrame  *frame
 	nextIsDefer bool
 	lastWhere string
+	blockCount int64
 	initNotes []string
 	patCache  map[*ssa.Function]stubFn
 	named     map[string]*Cell
@@ -249,11 +251,22 @@ func (in *Interp) Run(fn *ssa.Function) *Result {
 		if in.opts.StopAtFirst && len(res.Violations) > 0 {
 			break
 		}
-		// backtrack: find deepest decision with an untried alternative
+		if len(res.Violations) >= 25 {
+			res.Truncated = "stopped after 25 violations"
+			break
+		}
+		// backtrack: find the deepest decision with an untried feasible alternative
 		i := len(in.decisions) - 1
+		next := -1
 		for i >= nForced {
 			d := &in.decisions[i]
-			if d.n == 0 || d.choice+1 < d.n {
+			for c := d.choice + 1; c < d.n; c++ {
+				if d.feas == nil || d.feas[c] {
+					next = c
+					break
+				}
+			}
+			if next >= 0 {
 				break
 			}
 			i--
@@ -261,12 +274,15 @@ func (in *Interp) Run(fn *ssa.Function) *Result {
 		if i < nForced {
 			break
 		}
-		// pop solver frames of decisions i..end
+		// pop solver frames of decisions i..end that are on the stack
 		for j := len(in.decisions) - 1; j >= i; j-- {
-			in.sol.Pop()
+			if in.decisions[j].pushed {
+				in.sol.Pop()
+			}
 		}
 		in.synced = in.decisions[i].events
-		in.decisions[i].flip = true
+		in.decisions[i].choice = next
+		in.decisions[i].pushed = false
 		in.decisions = in.decisions[:i+1]
 	}
 	// unwind solver
@@ -431,68 +447,78 @@ func (in *Interp) addConstraint(t *sym.Term) {
 
 // decide picks one of the alternatives (boolean terms, mutually exclusive and
 // jointly exhaustive under the path condition); nil alts = unconditional k-way choice.
-func (in *Interp) decide(k int, alts []*sym.Term) int {
+func (in *Interp) decide(k int, alts []*sym.Term) int { return in.decideX(k, alts, false) }
+
+func (in *Interp) decideX(k int, alts []*sym.Term, noCheck bool) int {
 	if in.opts.ConcreteMode {
 		panic("decide in concrete mode")
 	}
-	start := 0
-	var payload uint64
 	if in.dpos < len(in.decisions) {
 		d := &in.decisions[in.dpos]
-		if !d.flip {
-			in.dpos++
-			if d.forced && d.choice >= k {
-				panic(pathEnd{"infeasible"})
-			}
-			if d.forced && !d.pushed {
-				// forced prefix decision seen for the first time: put it on the solver stack
-				d.pushed = true
-				d.events = in.events
-				in.sol.Push()
-				if alts != nil {
-					in.sol.Assert(alts[d.choice])
-				}
-				in.synced = in.events + 1
-			}
-			in.events++
-			if alts != nil {
-				in.pc = append(in.pc, alts[d.choice])
-			}
-			return d.choice
+		in.dpos++
+		if d.forced && d.choice >= k {
+			panic(pathEnd{"infeasible"})
 		}
-		start = d.choice + 1
-		payload = d.payload
-		in.decisions = in.decisions[:in.dpos]
+		if !d.pushed {
+			// a forced prefix decision, or the alternative chosen by the last backtrack: put it on the solver stack
+			if in.events != in.synced {
+				panic(fmt.Sprintf("decide: solver stack out of sync at re-push (events %d synced %d)", in.events, in.synced))
+			}
+			d.pushed = true
+			d.events = in.events
+			in.sol.Push()
+			if alts != nil {
+				in.sol.Assert(alts[d.choice])
+			}
+			in.synced = in.events + 1
+		}
+		in.events++
+		if alts != nil {
+			in.pc = append(in.pc, alts[d.choice])
+		}
+		return d.choice
 	}
-	// frontier
+	// frontier: decide the feasibility of every alternative now, so that no re-execution is spent on dead ones
 	if in.events != in.synced {
 		panic(fmt.Sprintf("decide: solver stack out of sync (events %d synced %d)", in.events, in.synced))
 	}
-	for c := start; c < k; c++ {
-		in.sol.Push()
-		feasible := true
-		if alts != nil {
-			in.sol.Assert(alts[c])
-			r := in.sol.Check()
-			switch r {
-			case sym.Unsat:
-				feasible = false
-			case sym.Unknown:
-				in.pathUnknown = true
+	feas := make([]bool, k)
+	first := -1
+	nfeas := 0
+	for c := 0; c < k; c++ {
+		feas[c] = true
+		if alts != nil && !noCheck {
+			if c == k-1 && nfeas == 0 {
+				// all others are infeasible: this one must hold (the path condition is satisfiable)
+			} else {
+				switch in.sol.CheckWith(alts[c]) {
+				case sym.Unsat:
+					feas[c] = false
+				case sym.Unknown:
+					in.pathUnknown = true
+				}
 			}
 		}
-		if !feasible {
-			in.sol.Pop()
-			continue
+		if feas[c] {
+			nfeas++
+			if first < 0 {
+				first = c
+			}
 		}
-		in.decisions = append(in.decisions, decision{choice: c, n: k, events: in.events, payload: payload})
+	}
+	if first >= 0 {
+		in.sol.Push()
+		if alts != nil {
+			in.sol.Assert(alts[first])
+		}
+		in.decisions = append(in.decisions, decision{choice: first, n: k, feas: feas, events: in.events, pushed: true})
 		in.dpos++
 		in.events++
 		in.synced = in.events
 		if alts != nil {
-			in.pc = append(in.pc, alts[c])
+			in.pc = append(in.pc, alts[first])
 		}
-		return c
+		return first
 	}
 	// no feasible alternative: this path is dead
 	panic(pathEnd{"infeasible"})
@@ -914,7 +940,7 @@ func (in *Interp) globalCell(g *ssa.Global) *Cell {
 	}
 	save := in.epoch
 	in.epoch = 0
-	c := in.newCell(in.zero(g.Type().(*types.Pointer).Elem()))
+	c := in.allocType(g.Type().(*types.Pointer).Elem())
 	in.epoch = save
 	in.globals[g] = c
 	if g.Pkg != nil {
